@@ -508,6 +508,96 @@ pub fn case_exhaustive_replay(bytes: &[u8], _s: &[u8], ctx: &mut Ctx) -> Result<
     r
 }
 
+/// Free-running stress: one thread makes the very first get_hash() call on a fresh un-hashed static key
+/// while others clone it and hash the clones (no hook point separates the two loads of `Key::clone`, so
+/// only free-running threads can land between them).
+fn stress_first_hash(pr: &PropRun) -> crate::engine::runner::LaneReport {
+    use crate::engine::runner::{LaneReport, Violation};
+    use std::sync::atomic::{AtomicBool, AtomicUsize, Ordering};
+    let start = std::time::Instant::now();
+    let mut rep = LaneReport::named("stress-clone-during-first-hash");
+    let rounds = pr.cfg.cases(60_000, 2_000_000) as usize;
+    const NAMES: [&str; 4] = ["stress.key", "", "é", "a.much.longer.metric.name.for.the.stress.lane"];
+    static LABELS: [Label; 2] = [Label::from_static_parts("k", "v"), Label::from_static_parts("k2", "")];
+    let cloners = 3usize;
+    let slot: std::sync::RwLock<Option<Key>> = std::sync::RwLock::new(None);
+    let round = AtomicUsize::new(0); // odd = a key is published for that round
+    let done = AtomicUsize::new(0);
+    let stop = AtomicBool::new(false);
+    let bad: std::sync::Mutex<Option<(String, String)>> = std::sync::Mutex::new(None);
+    std::thread::scope(|s| {
+        for c in 0..=cloners {
+            let (slot, round, done, stop, bad) = (&slot, &round, &done, &stop, &bad);
+            s.spawn(move || {
+                let mut seen = 0usize;
+                while !stop.load(Ordering::Acquire) {
+                    let r = round.load(Ordering::Acquire);
+                    if r == seen {
+                        std::hint::spin_loop();
+                        continue;
+                    }
+                    seen = r;
+                    let g = slot.read().unwrap();
+                    let key = g.as_ref().unwrap();
+                    let reference = Key::from_parts(key.name().to_string(), key.labels().cloned().collect::<Vec<_>>()).get_hash();
+                    if c == 0 {
+                        // a little jitter so that the first get_hash lands at varying points of the cloners' loops
+                        for _ in 0..(r % 64) {
+                            std::hint::spin_loop();
+                        }
+                        let h = key.get_hash();
+                        if h != reference {
+                            *bad.lock().unwrap() = Some(("get_hash-race-wrong-value".into(), format!("first get_hash() returned {:#x}, the key hashes to {:#x}", h, reference)));
+                        }
+                    } else {
+                        for _ in 0..24 {
+                            let k2 = key.clone();
+                            let h = k2.get_hash();
+                            let mut kh = metrics::KeyHasher::default();
+                            k2.hash(&mut kh);
+                            if h != reference || kh.finish() != reference || k2 != *key {
+                                *bad.lock().unwrap() = Some(("clone-of-racing-key-hashes-differently".into(), format!("a clone taken while another thread made the first get_hash() call reports get_hash() = {:#x} (std Hash {:#x}) but the key hashes to {:#x}; name {:?}", h, kh.finish(), reference, key.name())));
+                                break;
+                            }
+                        }
+                    }
+                    drop(g);
+                    done.fetch_add(1, Ordering::AcqRel);
+                }
+            });
+        }
+        for r in 0..rounds {
+            let name = NAMES[r % NAMES.len()];
+            let key = match r % 3 {
+                0 => Key::from_static_name(name),
+                1 => Key::from_static_parts(name, &LABELS),
+                _ => Key::from_static_labels(name.to_string(), &LABELS),
+            };
+            *slot.write().unwrap() = Some(key);
+            done.store(0, Ordering::Release);
+            round.store(r + 1, Ordering::Release);
+            while done.load(Ordering::Acquire) < cloners + 1 {
+                std::hint::spin_loop();
+            }
+            if bad.lock().unwrap().is_some() {
+                break;
+            }
+        }
+        stop.store(true, Ordering::Release);
+    });
+    let mut ctx = Ctx::default();
+    ctx.fingerprint = Some(1);
+    ctx.nontrivial("clone-races-first-get_hash");
+    ctx.desc = Some(format!("{} rounds: a fresh static key (from_static_name / from_static_parts / from_static_labels), one thread calls get_hash() first while {} threads clone it 24 times each and compare get_hash(), std Hash and == of every clone", rounds, cloners));
+    rep.account(ctx);
+    rep.evaluations = rounds as u64;
+    if let Some((sig, msg)) = bad.into_inner().unwrap() {
+        rep.violations.push(Violation { lane: "stress-clone-during-first-hash".into(), sig, msg, bytes: vec![], sched: vec![], decoded: "free-running threads (not deterministically replayable)".into() });
+    }
+    rep.wall_s = start.elapsed().as_secs_f64();
+    rep
+}
+
 pub fn run(cfg: &RunCfg, replay: Option<&str>) -> i32 {
     let mut pr = PropRun::new("C03", cfg, RULE);
     pr.register("triples", &case_triples);
@@ -526,6 +616,8 @@ pub fn run(cfg: &RunCfg, replay: Option<&str>) -> i32 {
     let r = run_lane(&c, "C03", &Lane { name: "hash-race", cases: c.cases(200_000, 5_000_000), max_len: 40, sched_len: 24, workers: 0, f: &case_race });
     pr.push(r);
     let r = exhaustive_small(&pr);
+    pr.push(r);
+    let r = stress_first_hash(&pr);
     pr.push(r);
     pr.finish()
 }
